@@ -45,8 +45,9 @@ REG = {
 }
 
 
-def _reg(pid, run, theorems=(), translator=("T1",), rule="", level_text="", level_note="", technique="", assumptions=()):
-    REG[pid] = {"module": f"NirVerif.Properties.{pid}", "theorems": list(theorems), "translator": list(translator),
+def _reg(pid, run, theorems=(), translator=("T1",), rule="", level_text="", level_note="", technique="", assumptions=(),
+         module=None):
+    REG[pid] = {"module": module or f"NirVerif.Properties.{pid}", "theorems": list(theorems), "translator": list(translator),
                 "run": run, "rule": rule, "level_text": level_text, "level_note": level_note,
                 "technique": technique or "Lean 4 proof over hand-written model + model/implementation correspondence",
                 "assumptions": list(assumptions)}
@@ -121,17 +122,19 @@ _reg("C05", c05.run,
                 "correspondence sampling; numpy shape semantics are modelled, not verified.")
 _reg("C08", c08.run, translator=("T1", "T4", "T5"),
      theorems=["NirVerif.C08.restore", "NirVerif.C08.localTyping_of_nodes", "NirVerif.C08.restoreG",
-               "NirVerif.C08.localTypingK_of_nodes", "NirVerif.C08.restore_keyed"],
+               "NirVerif.C08.localTypingK_of_nodes", "NirVerif.C08.restore_keyed", "NirVerif.C08.restore_settled"],
      level_text="Kernel-checked: for every flat graph with unique names in which every node is an Input or reachable "
                 "from one, and every typing tau that is consistent edge-by-edge with the partly erased graph, infer_types "
                 "succeeds, leaves every node with exactly tau's shapes (Outputs included, none undefined) and the result "
                 "passes the type check - for any topology, edge order, cycle, parallel edge, fan-in/out (work-list "
                 "invariant: sources seen, soundness, closure under successors, untouched-if-unseen). The edge-local "
-                "condition is itself proved for erased/wrong Output shapes, erased input-side annotations and (with the "
-                "standard port names, restore_keyed) erased Flatten output types, whose recomputation from the restored "
-                "input shape is part of the proved loop body; for erased Conv/pooling annotations it is a hypothesis "
-                "of the theorem, validated by the correspondence run against ground truth computed forwards by an "
-                "independent oracle.",
+                "condition is itself proved (restore_keyed, with the standard port names) for every kind of annotation "
+                "NIR allows to be undefined: erased/wrong Output shapes, erased input sides, erased Flatten output types, "
+                "erased Conv1d/Conv2d types (input_shape=None) and pooling types - the loop body's recomputation of "
+                "calc_flatten_output / calculate_conv_output from the restored input shape is part of the proved step, "
+                "including the tuple-of-numpy-scalars / ndarray-tail readings of the shape values. The per-node "
+                "hypothesis states the annotated output shape in terms of the (translator-generated) shape kernels "
+                "applied to the canonical integer tuple; restore_settled adds that Output nodes mirror their input.",
      level_note="Lean kernel; hand-written model of infer_types/_check_types; per-kind shape arithmetic of Conv/Flatten is "
                 "covered by C06/C07 theorems over the translator-generated kernels, its embedding in the loop body by sampling.",
      rule="Consistent graphs built forwards from Inputs (all primitives, fan-in/out, residual/recurrent/self/parallel "
@@ -144,9 +147,9 @@ _reg("C09", c09.run, theorems=["NirVerif.C09.iff", "NirVerif.C09.rejects"],
                 "returns True iff every edge joins a defined output shape to an equal defined input shape, and otherwise "
                 "raises ValueError. The model is tied to _check_types by differential testing on enumerated and sampled graphs.",
      level_note="Lean kernel; hand-written model of _check_types and of np.array_equal on shape values; correspondence sampling.")
-_reg("C10", c10.run,
+_reg("C10", c10.run, module="NirVerif.Properties.C10Consistent",
      theorems=["NirVerif.Model.workList", "NirVerif.C10.frame", "NirVerif.C10.untouched", "NirVerif.C10.reach",
-               "NirVerif.C10.idempotent_partial"],
+               "NirVerif.C10.idempotent_partial", "NirVerif.C10.idempotent_consistent"],
      rule="All multigraphs over 9 node archetypes (typed/untyped Input, element-wise, Flatten, Conv, pooling, typed/untyped "
           "Output) on <=2 nodes with <=2 edges (thorough: plus a 10% sample on 3 nodes); consistent graphs with cycles, "
           "self-loops, parallel edges under all edge permutations (<=4 edges); arbitrary graphs with unreachable "
@@ -156,9 +159,12 @@ _reg("C10", c10.run,
                 "with its decreasing proof for every multigraph; (2) frame - edges, names, order, kinds, metadata and "
                 "every field are unchanged except an undefined-output Conv's input_shape, success or exception; (3) a "
                 "node not reachable from an Input is returned unchanged; (4) after a successful run every reachable "
-                "node has both types defined (closure of the work-list under successors); (5) PARTIAL idempotence: on a "
-                "graph whose edges are all fixed points of the loop body a further run is the identity. The full "
-                "idempotence statement is kept as `idempotent_full : Prop` and is only tested, not proved.",
+                "node has both types defined (closure of the work-list under successors); (5) idempotence: on a "
+                "graph whose edges are all fixed points of the loop body a further run is the identity "
+                "(idempotent_partial), and that hypothesis is discharged for every type-consistent graph with any subset "
+                "of its erasable annotations erased (idempotent_consistent: the first run succeeds and a second run "
+                "changes nothing). PARTIAL: for graphs that are *not* type-consistent the full statement is kept as "
+                "`idempotent_full : Prop` and is only tested, not proved.",
      level_note="Lean kernel; hand-written model of _forward_type_inference (active definition); object identity and "
                 "the real loop's termination are exhibited by the correspondence run (watchdog), not by the theorem.")
 _reg("C11", c11.run,
@@ -197,14 +203,17 @@ _reg("C13", c13.run, translator=("T1", "T2"),
                 "immutable values: it is observed on the real objects by the oracle (ids, shared memory, mutation).",
      level_note="Lean kernel; hand-written models of to_dict/from_dict/write/read and of the h5py contract (create_dataset conversions, item[()], link names, iteration order), validated against the real library and real files on every run.")
 _reg("C14", c14.run, translator=("T1", "T4", "T5"),
-     theorems=["NirVerif.C14.commute", "NirVerif.C14.inferred_is_stable"],
+     theorems=["NirVerif.C14.commute", "NirVerif.C14.commute_keyed", "NirVerif.C14.inferred_is_stable"],
      rule="Consistent graphs (C08 domain, plus grouped convolutions for the commutation clause) under 8 (thorough 32) "
           "operation histories of length 1-4 over {infer_types, write+read, to_dict+from_dict}: after every round trip of an "
           "inferred graph the carried annotations must be regained, and one more infer_types must give the ground-truth types.",
      level_text="Kernel-checked corollary of C08: two graphs with the same node names that are both locally consistent with a "
                 "typing tau infer to the same shapes on every node (namely tau) - so inference commutes with any history of "
-                "round trips that preserves local consistency; and an inferred graph is a fixed point of inference. That the "
-                "real round trips preserve local consistency is checked by the oracle on sampled histories.",
+                "round trips that preserves local consistency; local consistency is itself proved from per-node conditions "
+                "(commute_keyed) whatever subset of Output shapes, input sides, Flatten outputs, Conv types and pooling "
+                "types each of the two graphs has erased - pooling types never survive a file round trip, Conv/Flatten/"
+                "Input/Output annotations do; and an inferred graph is a fixed point of inference. That the real round "
+                "trips return a graph meeting the per-node conditions is checked by the oracle on sampled histories.",
      level_note="Lean kernel; hand-written models of to_dict/from_dict/write/read and of the h5py contract (create_dataset conversions, item[()], link names, iteration order), validated against the real library and real files on every run.")
 _reg("C15", c15.run, translator=("T1", "T3"),
      theorems=["NirVerif.C15.modes", "NirVerif.C15.step_refines", "NirVerif.C15.refines", "NirVerif.C15.read_after_history"],
